@@ -58,6 +58,15 @@ def main(*, add_noise=None):
         ]
         + [opt for opt in BoutMesh.user_options_factory.defaults]
     )
+    # Options that are read by this script itself
+    possible_options += [
+        "grid_file",
+        "plot_regions",
+        "plot_mesh",
+        "plot_xlow",
+        "plot_ylow",
+        "plot_corners",
+    ]
     unused_options = [opt for opt in options if opt not in possible_options]
     if unused_options != []:
         raise ValueError(
